@@ -60,6 +60,8 @@ def run(ctx):
                   label="exhaustive N=3 with cycles, termination as liveness")
         ctx.model("MCVpsc", "MCVpsc_fullmerge.cfg", workers=core.NCPU, heap="6g",
                   label="exhaustive N=3 DAG, full merge loop variant")
+        ctx.model("MCVpsc", "MCVpsc_n4.cfg", workers=core.NCPU, heap="10g", timeout=7200,
+                  label="exhaustive N=4 DAG (unit weights): 331 776 instances, every tie order")
         ctx.model("MCVpsc", "SimVpsc5.cfg", workers=core.NCPU, heap="6g", simulate="num=600", depth=60,
                   seed=seed + 1, label="simulation N=5")
 
